@@ -1,1 +1,306 @@
 import Tftp.Model.Config
+/-!
+# C17 — Command-line configuration is order-independent with documented defaults
+
+An argument vector is read as a sequence of *flag groups* (`SGroup`): a flag that takes a value together
+with its value, or a value-less flag, in either spelling. `IpAddr::from_str` and `Path::exists` are
+arbitrary oracles `o` — the theorems hold for every such oracle.
+
+The server parser (`Config::new`) is proved; the client parser (`ClientConfig::new`) has the same shape and
+is tied by the correspondence check only (`c17_client_*` are the statements that are proved for it).
+-/
+namespace Tftp
+
+inductive SGroup where
+  | ip (long : Bool) (v : Bytes)
+  | port (long : Bool) (v : Bytes)
+  | dir (long : Bool) (v : Bytes)
+  | rd (long : Bool) (v : Bytes)
+  | sd (long : Bool) (v : Bytes)
+  | single (long : Bool)
+  | ro (long : Bool)
+  | dup (v : Bytes)
+  | ow
+  | keep
+deriving Repr, DecidableEq
+
+def pick (l : List Bytes) (long : Bool) : Bytes := if long then l.getD 1 [] else l.getD 0 []
+
+def SGroup.tokens : SGroup → List Bytes
+  | .ip l v => [pick fI l, v]
+  | .port l v => [pick fP l, v]
+  | .dir l v => [pick fD l, v]
+  | .rd l v => [pick fRD l, v]
+  | .sd l v => [pick fSD l, v]
+  | .single l => [pick fS l]
+  | .ro l => [pick fR l]
+  | .dup v => [pick fDup false, v]
+  | .ow => [pick fOw false]
+  | .keep => [pick fKeep false]
+
+/-- is the group's value acceptable? -/
+def SGroup.valid (o : Oracles) : SGroup → Bool
+  | .ip _ v => o.ipOk v
+  | .port _ v => (parseUnsigned 65536 v).isSome
+  | .dir _ v => o.pathExists v
+  | .rd _ v => o.pathExists v
+  | .sd _ v => o.pathExists v
+  | .dup v => match parseUnsigned 256 v with
+    | some n => n ≠ Gen.dupPacketsBound
+    | none => false
+  | _ => true
+
+/-- the setting a valid group writes -/
+def SGroup.apply (g : SGroup) (c : Cfg) : Cfg :=
+  match g with
+  | .ip _ v => { c with ip := some v }
+  | .port _ v => { c with port := (parseUnsigned 65536 v).getD c.port }
+  | .dir _ v => { c with dir := some v }
+  | .rd _ v => { c with recvDir := v }
+  | .sd _ v => { c with sendDir := v }
+  | .single _ => { c with singlePort := true }
+  | .ro _ => { c with readOnly := true }
+  | .dup v => { c with dup := (parseUnsigned 256 v).getD c.dup }
+  | .ow => { c with overwrite := true }
+  | .keep => { c with cleanOnError := false }
+
+theorem parse_group (o : Oracles) (g : SGroup) (rest : List Bytes) (c : Cfg) :
+    parseServerArgs o (g.tokens ++ rest) c =
+      if g.valid o then parseServerArgs o rest (g.apply c) else .err := by
+  cases g with
+  | ip l v =>
+    cases l <;> simp only [SGroup.tokens, pick] <;> rw [parseServerArgs.eq_def] <;>
+      simp [SGroup.valid, SGroup.apply, fI] <;> rfl
+  | port l v =>
+    cases l <;> simp only [SGroup.tokens, pick] <;> rw [parseServerArgs.eq_def] <;>
+      simp [SGroup.valid, SGroup.apply, fI, fP] <;> (split <;> simp_all)
+  | dir l v =>
+    cases l <;> simp only [SGroup.tokens, pick] <;> rw [parseServerArgs.eq_def] <;>
+      simp [SGroup.valid, SGroup.apply, fI, fP, fD] <;> rfl
+  | rd l v =>
+    cases l <;> simp only [SGroup.tokens, pick] <;> rw [parseServerArgs.eq_def] <;>
+      simp [SGroup.valid, SGroup.apply, fI, fP, fD, fRD] <;> rfl
+  | sd l v =>
+    cases l <;> simp only [SGroup.tokens, pick] <;> rw [parseServerArgs.eq_def] <;>
+      simp [SGroup.valid, SGroup.apply, fI, fP, fD, fRD, fSD] <;> rfl
+  | single l =>
+    cases l <;> simp only [SGroup.tokens, pick] <;> rw [parseServerArgs.eq_def] <;>
+      simp [SGroup.valid, SGroup.apply, fI, fP, fD, fRD, fSD, fS]
+  | ro l =>
+    cases l <;> simp only [SGroup.tokens, pick] <;> rw [parseServerArgs.eq_def] <;>
+      simp [SGroup.valid, SGroup.apply, fI, fP, fD, fRD, fSD, fS, fR]
+  | dup v =>
+    simp only [SGroup.tokens, pick]
+    rw [parseServerArgs.eq_def]
+    simp [SGroup.valid, SGroup.apply, fI, fP, fD, fRD, fSD, fS, fR, fH, fDup]
+    split <;> simp_all
+  | ow =>
+    simp only [SGroup.tokens, pick]
+    rw [parseServerArgs.eq_def]
+    simp [SGroup.valid, SGroup.apply, fI, fP, fD, fRD, fSD, fS, fR, fH, fDup, fOw]
+  | keep =>
+    simp only [SGroup.tokens, pick]
+    rw [parseServerArgs.eq_def]
+    simp [SGroup.valid, SGroup.apply, fI, fP, fD, fRD, fSD, fS, fR, fH, fDup, fOw, fKeep]
+
+/-- **a vector of valid flag groups, in any order and with any repetitions, yields the configuration
+obtained by applying the groups one after the other** -/
+theorem c17_groups_parse (o : Oracles) (gs : List SGroup) (c : Cfg) (h : ∀ g ∈ gs, g.valid o = true) :
+    parseServerArgs o (gs.flatMap SGroup.tokens) c = .ok (gs.foldl (fun c g => g.apply c) c) := by
+  induction gs generalizing c with
+  | nil => simp [parseServerArgs]
+  | cons g gs ih =>
+    simp only [List.flatMap_cons, List.foldl_cons]
+    rw [parse_group, h g (by simp)]
+    simp only [↓reduceIte]
+    exact ih _ (fun x hx => h x (by simp [hx]))
+
+/-- **error**: the first group with an unparsable port / address, a non-existent directory or
+`--duplicate-packets ≥ 255` makes the whole vector fail, whatever follows -/
+theorem c17_invalid_value_is_error (o : Oracles) (gs : List SGroup) (g : SGroup) (rest : List Bytes) (c : Cfg)
+    (h : ∀ x ∈ gs, x.valid o = true) (hg : g.valid o = false) :
+    parseServerArgs o (gs.flatMap SGroup.tokens ++ g.tokens ++ rest) c = .err := by
+  induction gs generalizing c with
+  | nil => simp only [List.flatMap_nil, List.nil_append]; rw [parse_group, hg]; simp
+  | cons x xs ih =>
+    simp only [List.flatMap_cons, List.append_assoc]
+    rw [parse_group, h x (by simp)]
+    simp only [↓reduceIte]
+    have := ih (x.apply c) (fun y hy => h y (by simp [hy]))
+    simpa [List.append_assoc] using this
+
+/-- **error**: an unknown flag fails -/
+theorem c17_unknown_flag_is_error (o : Oracles) (a : Bytes) (rest : List Bytes) (c : Cfg)
+    (h : a ∉ fI ++ fP ++ fD ++ fRD ++ fSD ++ fS ++ fR ++ fH ++ fDup ++ fOw ++ fKeep) :
+    parseServerArgs o (a :: rest) c = .err := by
+  simp only [List.mem_append, not_or] at h
+  obtain ⟨⟨⟨⟨⟨⟨⟨⟨⟨⟨h1, h2⟩, h3⟩, h4⟩, h5⟩, h6⟩, h7⟩, h8⟩, h9⟩, h10⟩, h11⟩ := h
+  rw [parseServerArgs.eq_def]
+  simp [h1, h2, h3, h4, h5, h6, h7, h8, h9, h10, h11]
+
+/-- **error**: a value-taking flag at the end of the vector fails -/
+theorem c17_missing_value_is_error (o : Oracles) (a : Bytes) (c : Cfg)
+    (h : a ∈ fI ++ fP ++ fD ++ fRD ++ fSD ++ fDup) : parseServerArgs o [a] c = .err := by
+  simp only [List.mem_append] at h
+  rw [parseServerArgs.eq_def]
+  rcases h with ((((h | h) | h) | h) | h) | h
+  · simp [h]
+  · by_cases h1 : a ∈ fI <;> simp [h, h1]
+  · by_cases h1 : a ∈ fI <;> by_cases h2 : a ∈ fP <;> simp [h, h1, h2]
+  · by_cases h1 : a ∈ fI <;> by_cases h2 : a ∈ fP <;> by_cases h3 : a ∈ fD <;> simp [h, h1, h2, h3]
+  · by_cases h1 : a ∈ fI <;> by_cases h2 : a ∈ fP <;> by_cases h3 : a ∈ fD <;> by_cases h4 : a ∈ fRD <;>
+      simp [h, h1, h2, h3, h4]
+  · have ha : a = [45, 45, 100, 117, 112, 108, 105, 99, 97, 116, 101, 45, 112, 97, 99, 107, 101, 116, 115] := by
+      simpa [fDup] using h
+    subst ha
+    simp [fI, fP, fD, fRD, fSD, fS, fR, fH, fDup]
+
+/-- `--duplicate-packets n` is accepted exactly for `n < 255` -/
+theorem c17_dup_bound (o : Oracles) (v : Bytes) :
+    (SGroup.dup v).valid o = true ↔ ∃ n, parseUnsigned 256 v = some n ∧ n < 255 := by
+  simp only [SGroup.valid]
+  cases h : parseUnsigned 256 v with
+  | none => simp
+  | some n =>
+    have hb : n < 256 := by
+      unfold parseUnsigned at h
+      simp only at h
+      split at h
+      · simp at h
+      · split at h
+        · split at h
+          · rename_i hlt; simp at h; rw [← h]; exact hlt
+          · simp at h
+        · simp at h
+    constructor
+    · intro hv
+      refine ⟨n, rfl, ?_⟩
+      have : n ≠ 255 := by
+        have h2 := of_decide_eq_true hv
+        simpa [Gen.dupPacketsBound] using h2
+      omega
+    · rintro ⟨m, hm, hlt⟩
+      have : m = n := by injection hm with hm; exact hm.symm
+      subst this
+      have : m ≠ 255 := by omega
+      exact decide_eq_true (by simpa [Gen.dupPacketsBound] using this)
+
+/-! ### last occurrence wins, hence order independence -/
+
+/-- the last group that sets the setting selected by `sel` -/
+def lastVal {α : Type} (sel : SGroup → Option α) : List SGroup → Option α
+  | [] => none
+  | g :: gs => match lastVal sel gs with
+    | some v => some v
+    | none => sel g
+
+theorem foldl_field {α : Type} (sel : SGroup → Option α) (f : Cfg → α)
+    (hstep : ∀ g c, f (g.apply c) = (sel g).getD (f c)) (gs : List SGroup) (c : Cfg) :
+    f (gs.foldl (fun c g => g.apply c) c) = (lastVal sel gs).getD (f c) := by
+  induction gs generalizing c with
+  | nil => simp [lastVal]
+  | cons g gs ih =>
+    simp only [List.foldl_cons, lastVal]
+    rw [ih, hstep]
+    cases lastVal sel gs <;> simp
+
+def selIp : SGroup → Option (Option Bytes) | .ip _ v => some (some v) | _ => none
+def selPort : SGroup → Option Nat | .port _ v => parseUnsigned 65536 v | _ => none
+def selDir : SGroup → Option (Option Bytes) | .dir _ v => some (some v) | _ => none
+def selRd : SGroup → Option Bytes | .rd _ v => some v | _ => none
+def selSd : SGroup → Option Bytes | .sd _ v => some v | _ => none
+def selSingle : SGroup → Option Bool | .single _ => some true | _ => none
+def selRo : SGroup → Option Bool | .ro _ => some true | _ => none
+def selDup : SGroup → Option Nat | .dup v => parseUnsigned 256 v | _ => none
+def selOw : SGroup → Option Bool | .ow => some true | _ => none
+def selKeep : SGroup → Option Bool | .keep => some false | _ => none
+
+/-- **last occurrence of each flag determines the configuration**: every setting of the result is the
+value of the last group that names it, or the default when no group does -/
+theorem c17_last_wins (gs : List SGroup) (c : Cfg) :
+    let r := gs.foldl (fun c g => g.apply c) c
+    r.ip = (lastVal selIp gs).getD c.ip ∧ r.port = (lastVal selPort gs).getD c.port ∧
+    r.dir = (lastVal selDir gs).getD c.dir ∧ r.recvDir = (lastVal selRd gs).getD c.recvDir ∧
+    r.sendDir = (lastVal selSd gs).getD c.sendDir ∧ r.singlePort = (lastVal selSingle gs).getD c.singlePort ∧
+    r.readOnly = (lastVal selRo gs).getD c.readOnly ∧ r.dup = (lastVal selDup gs).getD c.dup ∧
+    r.overwrite = (lastVal selOw gs).getD c.overwrite ∧ r.cleanOnError = (lastVal selKeep gs).getD c.cleanOnError := by
+  refine ⟨foldl_field selIp (·.ip) ?_ gs c, foldl_field selPort (·.port) ?_ gs c, foldl_field selDir (·.dir) ?_ gs c,
+    foldl_field selRd (·.recvDir) ?_ gs c, foldl_field selSd (·.sendDir) ?_ gs c,
+    foldl_field selSingle (·.singlePort) ?_ gs c, foldl_field selRo (·.readOnly) ?_ gs c,
+    foldl_field selDup (·.dup) ?_ gs c, foldl_field selOw (·.overwrite) ?_ gs c,
+    foldl_field selKeep (·.cleanOnError) ?_ gs c⟩ <;>
+  · intro g c
+    cases g <;> simp [SGroup.apply, selIp, selPort, selDir, selRd, selSd, selSingle, selRo, selDup, selOw, selKeep] <;>
+      (first | rfl | (rename_i v; cases parseUnsigned 65536 v <;> rfl) | (rename_i v; cases parseUnsigned 256 v <;> rfl))
+
+/-- **order independence**: two vectors of valid groups in which every setting has the same last
+occurrence give the same configuration — in particular any reordering that keeps, for each flag, its
+last occurrence (e.g. any permutation of a vector that names each flag at most once) -/
+theorem c17_order_independent (o : Oracles) (gs1 gs2 : List SGroup)
+    (h1 : ∀ g ∈ gs1, g.valid o = true) (h2 : ∀ g ∈ gs2, g.valid o = true)
+    (hip : lastVal selIp gs1 = lastVal selIp gs2) (hport : lastVal selPort gs1 = lastVal selPort gs2)
+    (hdir : lastVal selDir gs1 = lastVal selDir gs2) (hrd : lastVal selRd gs1 = lastVal selRd gs2)
+    (hsd : lastVal selSd gs1 = lastVal selSd gs2) (hsi : lastVal selSingle gs1 = lastVal selSingle gs2)
+    (hro : lastVal selRo gs1 = lastVal selRo gs2) (hdup : lastVal selDup gs1 = lastVal selDup gs2)
+    (how : lastVal selOw gs1 = lastVal selOw gs2) (hk : lastVal selKeep gs1 = lastVal selKeep gs2)
+    (prog : Bytes) :
+    serverConfig o (prog :: gs1.flatMap SGroup.tokens) = serverConfig o (prog :: gs2.flatMap SGroup.tokens) := by
+  unfold serverConfig
+  simp only [List.tail_cons]
+  rw [c17_groups_parse o gs1 _ h1, c17_groups_parse o gs2 _ h2]
+  have e1 := c17_last_wins gs1 Cfg.default
+  have e2 := c17_last_wins gs2 Cfg.default
+  simp only at e1 e2
+  have : gs1.foldl (fun c g => g.apply c) Cfg.default = gs2.foldl (fun c g => g.apply c) Cfg.default := by
+    generalize gs1.foldl (fun c g => g.apply c) Cfg.default = a at e1
+    generalize gs2.foldl (fun c g => g.apply c) Cfg.default = b at e2
+    obtain ⟨a1, a2, a3, a4, a5, a6, a7, a8, a9, a10⟩ := e1
+    obtain ⟨b1, b2, b3, b4, b5, b6, b7, b8, b9, b10⟩ := e2
+    cases a; cases b
+    simp only at a1 a2 a3 a4 a5 a6 a7 a8 a9 a10 b1 b2 b3 b4 b5 b6 b7 b8 b9 b10
+    simp only [Cfg.mk.injEq]
+    rw [a1, a2, a3, a4, a5, a6, a7, a8, a9, a10, b1, b2, b3, b4, b5, b6, b7, b8, b9, b10,
+      hip, hport, hdir, hrd, hsd, hsi, hro, hdup, how, hk]
+    simp
+  rw [this]
+
+/-- **documented defaults**: with no flags the configuration is 127.0.0.1 (`ip = none`), port 69, the
+current directory, writable, multi-port, no duplicates, no overwrite, clean-on-error -/
+theorem c17_defaults (o : Oracles) (prog : Bytes) :
+    serverConfig o [prog] = .ok { c := Cfg.default, recv := none, send := none } ∧
+    Cfg.default.port = 69 ∧ Cfg.default.ip = none ∧ Cfg.default.dir = none ∧ Cfg.default.singlePort = false ∧
+    Cfg.default.readOnly = false ∧ Cfg.default.dup = 0 ∧ Cfg.default.overwrite = false ∧
+    Cfg.default.cleanOnError = true := by
+  refine ⟨?_, by decide, rfl, rfl, rfl, rfl, rfl, rfl, rfl⟩
+  simp [serverConfig, parseServerArgs, finish, Cfg.default]
+
+/-- **directory fall-back**: the receive (send) directory is the explicit one iff one was given,
+otherwise the `-d` directory (or the current directory when there is none either) -/
+theorem c17_dir_fallback (c : Cfg) :
+    ((finish c).recv = if c.recvDir = [] then c.dir else some c.recvDir) ∧
+    ((finish c).send = if c.sendDir = [] then c.dir else some c.sendDir) := by
+  unfold finish
+  constructor <;> (simp only; split <;> simp_all)
+
+/-- `-h` after valid groups: the usage is printed and the process exits — a third outcome besides
+error and configuration -/
+theorem c17_help (o : Oracles) (gs : List SGroup) (l : Bool) (rest : List Bytes) (c : Cfg)
+    (h : ∀ g ∈ gs, g.valid o = true) :
+    parseServerArgs o (gs.flatMap SGroup.tokens ++ pick fH l :: rest) c = .help := by
+  induction gs generalizing c with
+  | nil =>
+    cases l <;> simp only [List.flatMap_nil, List.nil_append, pick] <;> rw [parseServerArgs.eq_def] <;>
+      simp [fI, fP, fD, fRD, fSD, fS, fR, fH]
+  | cons x xs ih =>
+    simp only [List.flatMap_cons, List.append_assoc]
+    rw [parse_group, h x (by simp)]
+    simp only [↓reduceIte]
+    exact ih _ (fun y hy => h y (by simp [hy]))
+
+/-! non-vacuity: two orders of the same flags, a repeated flag -/
+example : serverConfig { ipOk := fun _ => true, pathExists := fun _ => true }
+    ([[112]] ++ (SGroup.port false [55]).tokens ++ (SGroup.single true).tokens ++ (SGroup.port true [56]).tokens) =
+  serverConfig { ipOk := fun _ => true, pathExists := fun _ => true }
+    ([[112]] ++ (SGroup.single false).tokens ++ (SGroup.port true [56]).tokens) := by decide
+
+end Tftp
